@@ -143,11 +143,51 @@ def funcs(ctx, module=None, stubs=None):
                         orders.make_func(st, fn)
                     except (orders.Unsupported, orders.Raised, TypeError, AttributeError, KeyError, ValueError, IndexError, NameError):
                         pass
+                elif isinstance(st, ast.ClassDef):
+                    q = mod_.name + '.' + st.name
+                    if q not in ctx.prog.classes:
+                        continue
+                    try:
+                        class_created(q, st)
+                    except (orders.Unsupported, orders.Raised, TypeError, AttributeError, KeyError, ValueError, IndexError, NameError):
+                        pass
+
+    def class_created(q, node):
+        """what Python does when a class statement is executed, beyond binding the name: the __init_subclass__ hook of the nearest base
+        that defines one (with the keywords of the class statement), then the class decorators, innermost first"""
+        c = ctx.prog.classes[q]
+        hook = None
+        todo = []
+        for b in c.bases:
+            todo += [cq for cq, ci in ctx.prog.classes.items() if ci.name == b.split('.')[-1] and ci is not c]
+        seen = set()
+        while todo and hook is None:
+            bq = todo.pop(0)
+            if bq in seen:
+                continue
+            seen.add(bq)
+            bc = ctx.prog.classes[bq]
+            if '__init_subclass__' in bc.methods:
+                hook = bc.methods['__init_subclass__'].node
+                break
+            for b in bc.bases:
+                todo += [cq for cq, ci in ctx.prog.classes.items() if ci.name == b.split('.')[-1] and ci is not bc]
+        decos = [d for d in node.decorator_list if origin(ctx, q, d) not in ('dataclasses.dataclass', 'dataclass', 'functools.total_ordering', 'total_ordering', 'enum.unique', 'unique')]
+        if hook is None and not decos:
+            return
+        ref = name_of(node.name)
+        if not isinstance(ref, ClassRef) or ref._qual != q:
+            ref = ClassRef(ctx, q, fn)
+        if hook is not None:
+            kw = {k.arg: orders.ev(k.value, {}, fn) for k in node.keywords if k.arg and k.arg != 'metaclass'}
+            orders.make_func(hook, fn)(ref, **kw)
+        for d in reversed(decos):
+            orders.ev(d, {}, fn)(ref)
     fn.update({'__name__': name_of, '__resolve__': resolve, '__globals__': {},
                'floor': math.floor, 'ceil': math.ceil, 'sqrt': math.sqrt, 'fabs': math.fabs, 'trunc': math.trunc, 'round': round,
                'isnan': lambda v: isinstance(v, float) and v != v, 'print': lambda *a, **k: None})
     for nm_ in dir(math):
-        if not nm_.startswith('_') and callable(getattr(math, nm_)):
+        if not nm_.startswith('_') and callable(getattr(math, nm_)) and nm_ != 'pow':       # (pow by its bare name is the builtin: integer results stay integers)
             fn.setdefault(nm_, getattr(math, nm_))
     fn.setdefault('deepcopy', deep_copy)
     fn.setdefault('copy', shallow_copy)
@@ -158,6 +198,31 @@ def funcs(ctx, module=None, stubs=None):
         fn['__defaults__'] |= set(stubs['__np_names__'])
     run_imports()
     return fn
+
+
+_TOTAL_ORDERING = {
+    '__lt__': {'__gt__': 'not (self < other) and self != other', '__le__': 'self < other or self == other', '__ge__': 'not (self < other)'},
+    '__le__': {'__ge__': 'not (self <= other) or self == other', '__lt__': 'self <= other and self != other', '__gt__': 'not (self <= other)'},
+    '__gt__': {'__lt__': 'not (self > other) and self != other', '__ge__': 'self > other or self == other', '__le__': 'not (self > other)'},
+    '__ge__': {'__le__': 'not (self >= other) or self == other', '__gt__': 'self >= other and self != other', '__lt__': 'not (self >= other)'},
+}
+_SYNTH = {}
+
+
+def total_ordering_methods(defined):
+    """the comparison methods functools.total_ordering adds to a class that defines `defined`: FunctionDef nodes, derived from the
+    first of __lt__, __le__, __gt__, __ge__ the class has (as functools does)"""
+    for root in ('__lt__', '__le__', '__gt__', '__ge__'):
+        if root in defined:
+            out = {}
+            for name, expr in _TOTAL_ORDERING[root].items():
+                if name not in defined:
+                    key = (root, name)
+                    if key not in _SYNTH:
+                        _SYNTH[key] = ast.parse('def %s(self, other):\n    return %s\n' % (name, expr)).body[0]
+                    out[name] = _SYNTH[key]
+            return out
+    return {}
 
 
 def methods_of(ctx, clsqual):
@@ -172,6 +237,8 @@ def methods_of(ctx, clsqual):
         out[name] = fi.node
         if name.startswith('__') and not name.endswith('__'):
             out['_' + c.name.lstrip('_') + name] = fi.node          # a private method also answers to its mangled name (each class keeps its own)
+    if any(origin(ctx, clsqual, d) in ('functools.total_ordering', 'total_ordering') for d in c.node.decorator_list):
+        out.update(total_ordering_methods(set(c.methods)))
     return out
 
 
@@ -187,6 +254,9 @@ def owners_of(ctx, clsqual):
         out[name] = c.name
         if name.startswith('__') and not name.endswith('__'):
             out['_' + c.name.lstrip('_') + name] = c.name
+    if any(origin(ctx, clsqual, d) in ('functools.total_ordering', 'total_ordering') for d in c.node.decorator_list):
+        for name in total_ordering_methods(set(c.methods)):
+            out[name] = c.name
     return out
 
 
@@ -217,6 +287,11 @@ def consts_of(ctx, clsqual, fn=None):
         out[k] = val
         if k.startswith('__') and not k.endswith('__'):
             out['_' + c.name.lstrip('_') + k] = val
+        if isinstance(val, orders.Obj) and '__set_name__' in val.methods:
+            try:
+                val.call('__set_name__', None, k)           # (the owner class is not modelled as a value here)
+            except (orders.Unsupported,) + orders.PROGRAM_ERRORS:
+                pass
     if isinstance(fn, dict):
         # decorators of methods run when the class body is executed (a registry filled by @_handles(table, int) ...): once, in source
         # order, in the scope of the class
@@ -237,6 +312,31 @@ def consts_of(ctx, clsqual, fn=None):
                 except orders.Unsupported:
                     pass
     return out
+
+
+def exc_bases(ctx, clsqual):
+    """for a repository class that derives (through repository classes) from a builtin exception: the names of all the classes its
+    instances are instances of (repository classes first, then the builtin exception and its bases); () otherwise"""
+    names, builtin = [], []
+    seen = set()
+    todo = [clsqual]
+    while todo:
+        q = todo.pop(0)
+        if q in seen or q not in ctx.prog.classes:
+            continue
+        seen.add(q)
+        c = ctx.prog.classes[q]
+        names.append(c.name)
+        for b in c.bases:
+            bn = b.split('.')[-1]
+            repo = [cq for cq, ci in ctx.prog.classes.items() if ci.name == bn and ci is not c]
+            if repo:
+                todo.extend(repo)
+            else:
+                bc = orders._builtin_exception(bn)
+                if bc is not None:
+                    builtin.extend(n_ for n_ in orders.exception_names(bc) if n_ not in builtin)
+    return tuple(names + builtin) if builtin else ()
 
 
 def classnames_of(ctx, clsqual):
@@ -307,6 +407,11 @@ def instance(ctx, clsqual, fields, fn, isa=None):
     o.clsqual = clsqual
     o.consts = consts_of(ctx, clsqual, fn)
     o.owners = owners_of(ctx, clsqual)
+    eb = exc_bases(ctx, clsqual)
+    if eb:
+        o.excbases = eb
+        o.isa = set(o.isa) | set(eb)
+        o.fields.setdefault('args', ())
     return o
 
 
@@ -446,6 +551,8 @@ class ClassRef(orders.PyStub):
         consts = object.__getattribute__(self, '__dict__').get('_consts')
         if consts is not None and k in consts:
             return consts[k]
+        if k in ('__name__', '__qualname__') and '_qual' in object.__getattribute__(self, '__dict__'):
+            return self._qual.rsplit('.', 1)[-1]
         if k in ('_make', '_fields') and '_qual' in object.__getattribute__(self, '__dict__'):
             # the class-level helpers of a namedtuple class
             nt = self._tuple_base()
@@ -607,6 +714,26 @@ class ClassRef(orders.PyStub):
                     return m_
             raise ValueError('%r is not a valid %s' % (args[0], self._qual.split('.')[-1]))
         obj = instance(self._ctx, self._qual, {}, self._fn, isa=all_bases(self._ctx, self._qual))
+        if '_abstract' not in self.__dict__:
+            # abc.ABC (or metaclass=ABCMeta) somewhere among the bases: a class that still has an @abstractmethod cannot be instantiated
+            is_abc = False
+            todo, seen = [self._qual], set()
+            while todo:
+                q_ = todo.pop()
+                if q_ in seen or q_ not in self._ctx.prog.classes:
+                    continue
+                seen.add(q_)
+                c_ = self._ctx.prog.classes[q_]
+                if any(b_.split('.')[-1] == 'ABC' for b_ in c_.bases) or any(k_.arg == 'metaclass' and 'ABCMeta' in ast.unparse(k_.value) for k_ in c_.node.keywords):
+                    is_abc = True
+                for b_ in c_.bases:
+                    todo += [cq for cq, ci in self._ctx.prog.classes.items() if ci.name == b_.split('.')[-1] and ci is not c_]
+            left = sorted(n_ for n_, m_ in obj.methods.items() if is_abc and isinstance(m_, ast.FunctionDef) and not n_.startswith('_' + obj.clsname.lstrip('_') + '__')
+                          and any('abstractmethod' in ast.unparse(d_) for d_ in m_.decorator_list))
+            object.__setattr__(self, '_abstract', left)
+        if self.__dict__['_abstract']:
+            raise TypeError("Can't instantiate abstract class %s without an implementation for abstract method%s %s"
+                            % (obj.clsname, 's' if len(self.__dict__['_abstract']) > 1 else '', ', '.join(repr(n_) for n_ in self.__dict__['_abstract'])))
         nt = self._tuple_base()
         if nt is not None and '__new__' not in obj.methods:
             proto = nt(*args, **kwargs)              # (binds positional / keyword / default field values as the namedtuple does)
@@ -648,8 +775,13 @@ class ClassRef(orders.PyStub):
                 obj.constructed = True
                 obj.frozen = opts['frozen']
                 return obj
+        if getattr(obj, 'excbases', None):
+            obj.fields['args'] = tuple(args)            # (BaseException.__new__ keeps the arguments whatever __init__ does)
         if '__init__' in obj.methods:
             obj.call('__init__', *args, **kwargs)
+        elif getattr(obj, 'excbases', None):
+            if kwargs:
+                raise TypeError('%s() takes no keyword arguments' % obj.clsname)
         if dc is not None:
             obj.frozen = dc[1]['frozen']
         obj.constructed = True          # every field comes from the repository's own constructor: a missing one is an AttributeError
@@ -679,7 +811,7 @@ def all_bases(ctx, clsqual):
 
 def _carry(src, dst):
     """what a copy of a record keeps besides its fields: the class tables and the marks set at construction"""
-    for k in ('mro', 'classnames', 'constructed', 'ntfields', 'dcfields', 'dcopts', 'frozen', 'closure'):
+    for k in ('mro', 'classnames', 'constructed', 'ntfields', 'dcfields', 'dcopts', 'frozen', 'closure', 'excbases'):
         if hasattr(src, k):
             setattr(dst, k, getattr(src, k))
 
